@@ -5,6 +5,7 @@ import (
 	"go/ast"
 	"go/token"
 	"go/types"
+	"strings"
 
 	"golang.org/x/tools/go/packages"
 )
@@ -12,24 +13,41 @@ import (
 // SNAPSHOT-FRESH (C14): methods named Snapshot (the name is the property's anchor) with a pointer
 // receiver, no parameters and the single result b6.World, in any module package. Let M be the
 // fields of the receiver's struct whose type is a map, pointer or slice and that some method of
-// the type mutates in place: a store `r.f[k] = v` / `(*r.f)[k] = v`, a store through the field
-// (`r.f.g = v`), `delete(r.f, k)`, `r.f = append(r.f, ...)`, or a call `r.f.M(...)` of a method
-// that (transitively) stores through its receiver. After Snapshot the live world and the
-// snapshot must not share the storage of any member of M.
+// the type mutates in place. For every member the rule records the depth of each in-place write
+// it finds, counted in storage levels below the field's value: level 0 is the storage the field
+// refers to directly (`r.f[k] = v`, `delete(r.f, k)`, `r.f = append(r.f, ..)`), level 1 the storage
+// its elements refer to (`r.f[k][j] = v`, `(*r.f)[k] = v` for a pointer to a map, a store through
+// a local or range variable that was read from `r.f[k]`), and so on; a call `X.M(..)` of a method
+// that stores through its receiver counts at the level of X plus the method's own level
+// (summaries are transitive). After Snapshot the live world and the snapshot must not share any
+// storage of a member of M at a level that is written in place.
 //
-// The body of Snapshot is interpreted symbolically (straight-line code only; anything else is
-// undecided). Values are: the storage a field had on entry, fresh storage, a world object, or
-// unknown. Accepted idioms:
+// The body of Snapshot is interpreted symbolically on every path through its if/else statements
+// (the conditions are not evaluated: a path on which a written level is shared is a violation
+// whatever the condition says, and the report names the branch; two ifs with the same condition,
+// with no assignment to its operands in between, take the same branch). Loops are accepted only
+// as the element-wise copy below or when they cannot change what a world's field holds; switch,
+// select, goto, defer and go that could do so are undecided. Values are: the storage a field had
+// on entry, storage allocated in Snapshot, a copy of either that has new storage down to some level and shares the rest, a
+// world object, or unknown. Accepted idioms:
 //   - the snapshot is a struct copy `c := *r` (published as &c) or a composite literal of the
 //     receiver's type (published directly, through a local, or through a field such as r.base);
 //     fields absent from a literal are zero, i.e. not shared;
-//   - fresh storage: make, new, a composite literal or its address, the address of a local
-//     variable defined in Snapshot (`i := *r.f; c.f = &i`), nil, and a call of a
+//   - fresh storage (all levels): make, new, a composite literal or its address, the address of a
+//     local variable defined in Snapshot (`i := *r.f; c.f = &i`), nil, and a call of a
 //     constructor: a module function all of whose returns yield make/new/a literal/its address,
 //     the address of a local initialised that way (also through a conversion), or another
 //     constructor (NewFeaturesByID, NewFeatureReferences, NewModifiedTags, newMutableFeatureIndex);
-//   - either side may receive the fresh storage (`r.f = New()` or `c.f = New()` / `f: make(...)`).
+//   - shallow copies, fresh at level 0 and shared below: maps.Clone(x), slices.Clone(x),
+//     append(T(nil), x...) / append(T{}, x...), `t := make(..); copy(t, x)`, and
+//     `t := make(..); for k, v := range x { t[k] = v }`; the same loop with `t[k] = <shallow copy
+//     of v>` is fresh at levels 0 and 1 (a deep copy of a map of maps);
+//   - either side may receive the fresh storage.
 //
+// A field is decided per path: not shared (different origins) is ok; shared from level L on is
+// ok exactly when every in-place write found for the field is above L (so a shallow copy is
+// enough for a map that is only written with f[k] = v, and is a violation for ModifiedTags,
+// whose per-feature maps are written through `tags := m.tags[id]; tags[key] = ..`).
 // One obligation per (Snapshot method, member of M), numbered in field declaration order.
 func init() {
 	register(&Rule{
@@ -37,8 +55,8 @@ func init() {
 		IR:    "ast",
 		Props: []string{"C14"},
 		Floor: 6, // MutableOverlayWorld: features, references, index, tags; MutableTagsOverlayWorld: tags, watchers
-		Doc: "after Snapshot() the live world and the returned snapshot share no map/pointer/slice field that a method of the type mutates in place: " +
-			"for each such field at least one side receives fresh storage (make, a constructor, a composite literal) inside Snapshot",
+		Doc: "after Snapshot() the live world and the returned snapshot share no storage of a map/pointer/slice field at a level that a method of the type writes in place: " +
+			"on every path through Snapshot at least one side receives storage that is fresh (make, a constructor, a composite literal, or a copy deep enough for the writes found)",
 		Run: runSnapshotFresh,
 	})
 }
@@ -78,33 +96,57 @@ func runSnapshotFresh(c *Ctx) []Obligation {
 			}
 			name := c.FuncName(p, fd)
 			M := eMutatedFields(c, mut, p, named, st)
-			res := eInterpretSnapshot(c, p, fd, named, st)
+			paths, undecided := eInterpretSnapshot(c, p, fd, named, st)
 			ord := 0
 			for i := 0; i < st.NumFields(); i++ {
 				f := st.Field(i)
-				ev, in := M[f]
+				mi, in := M[f]
 				if !in {
 					continue
 				}
 				ord++
 				ob := Obligation{Key: fmt.Sprintf("%s#%d", name, ord), Pos: c.Position(fd.Pos())}
-				what := fmt.Sprintf("field %s (%s, mutated in place %s)", f.Name(), types.TypeString(f.Type(), types.RelativeTo(p.Types)), ev)
-				switch {
-				case res.undecided != "":
-					ob.Status, ob.Detail = Undecided, what+": "+res.undecided
-				default:
-					live, snap := res.live.fields[f], res.snap.fields[f]
-					switch {
-					case res.live == res.snap:
-						ob.Status, ob.Detail = Violation, what+": Snapshot returns the live world itself"
-					case live.kind == eAVUnknown || snap.kind == eAVUnknown:
-						ob.Status, ob.Detail = Undecided, fmt.Sprintf("%s: cannot tell what storage the %s holds after Snapshot (live: %s, snapshot: %s)", what, map[bool]string{true: "live world", false: "snapshot"}[live.kind == eAVUnknown], live.String(), snap.String())
-					case live.same(snap):
-						ob.Status = Violation
-						ob.Detail = fmt.Sprintf("%s: after Snapshot the live world and the snapshot both hold %s; neither side receives fresh storage, so later edits of the live world change the snapshot", what, live.String())
+				what := fmt.Sprintf("field %s (%s, written in place %s", f.Name(), types.TypeString(f.Type(), types.RelativeTo(p.Types)), mi.first)
+				if mi.maxLevel > 0 {
+					deeper := ""
+					if mi.maxLevel == eMaxLevel {
+						deeper = " or deeper"
+					}
+					what += fmt.Sprintf("; deepest write found at level %d%s %s", mi.maxLevel, deeper, mi.deepest)
+				}
+				what += ")"
+				if undecided != "" {
+					ob.Status, ob.Detail = Undecided, what+": "+undecided
+					out = append(out, ob)
+					continue
+				}
+				ob.Status = OK
+				var okDetail string
+				for _, pe := range paths {
+					where := ""
+					if len(pe.trail) > 0 {
+						where = " on the path taking " + strings.Join(pe.trail, ", then ")
+					}
+					st2, d := eDecideField(f, mi, pe)
+					switch st2 {
+					case Violation:
+						if ob.Status != Violation {
+							ob.Status, ob.Detail = Violation, what+where+": "+d
+						}
+					case Undecided:
+						if ob.Status == OK {
+							ob.Status, ob.Detail = Undecided, what+where+": "+d
+						}
 					default:
-						ob.Status = OK
-						ob.Detail = fmt.Sprintf("%s: live world holds %s, snapshot holds %s", what, live.String(), snap.String())
+						if okDetail == "" {
+							okDetail = d
+						}
+					}
+				}
+				if ob.Status == OK {
+					ob.Detail = what + ": " + okDetail
+					if len(paths) > 1 {
+						ob.Detail += fmt.Sprintf(" (and likewise on all %d paths through Snapshot)", len(paths))
 					}
 				}
 				out = append(out, ob)
@@ -114,12 +156,51 @@ func runSnapshotFresh(c *Ctx) []Obligation {
 	return out
 }
 
+// eDecideField decides one field on one path.
+func eDecideField(f *types.Var, mi *eMutInfo, pe *ePathEnd) (string, string) {
+	if pe.undecided != "" {
+		return Undecided, pe.undecided
+	}
+	if pe.snap == pe.st.live {
+		return Violation, "Snapshot returns the live world itself"
+	}
+	live, snap := pe.st.live.fields[f], pe.snap.fields[f]
+	switch {
+	case live.kind == eAVUnknown || snap.kind == eAVUnknown:
+		side := "snapshot"
+		if live.kind == eAVUnknown {
+			side = "live world"
+		}
+		return Undecided, fmt.Sprintf("cannot tell what storage the %s holds after Snapshot (live: %s, snapshot: %s)", side, live.String(), snap.String())
+	case !live.sameRoot(snap):
+		return OK, fmt.Sprintf("live world holds %s, snapshot holds %s", live.String(), snap.String())
+	}
+	level := live.fd
+	if snap.fd > level {
+		level = snap.fd
+	}
+	if level == 0 {
+		return Violation, fmt.Sprintf("after Snapshot the live world and the snapshot both hold %s; neither side receives fresh storage, so later edits of the live world change the snapshot", live.String())
+	}
+	if mi.maxLevel >= level {
+		return Violation, fmt.Sprintf("live world holds %s, snapshot holds %s: the copy is shallow: it shares the inner storage from level %d on, but the field is written in place at level %d %s, so later edits of the live world change the snapshot",
+			live.String(), snap.String(), level, mi.maxLevel, mi.deepest)
+	}
+	return OK, fmt.Sprintf("live world holds %s, snapshot holds %s: shared only from level %d on, every in-place write found is above (deepest at level %d)", live.String(), snap.String(), level, mi.maxLevel)
+}
+
 // ---------------------------------------------------------------------------------------------
-// which fields are mutated in place
+// which fields are written in place, and how deep
+
+type eMutInfo struct {
+	first    string // evidence of the first write found
+	maxLevel int
+	deepest  string // evidence of the deepest write
+}
 
 type eMutSummary struct {
 	c    *Ctx
-	memo map[*types.Func]int // 0 unknown, 1 in progress / no, 2 yes
+	memo map[*types.Func]int // 0 unknown, 1 in progress / none, 2+k: writes through the receiver down to level k
 }
 
 func eIsRefType(t types.Type) bool {
@@ -130,89 +211,174 @@ func eIsRefType(t types.Type) bool {
 	return false
 }
 
-// eStoreThroughRef: the left-hand side l, rooted at obj, writes storage that is shared with the
-// caller's value of obj (always for a pointer obj; for a value obj only through a map/slice
-// element or a pointer dereference).
-func eStoreThroughRef(info *types.Info, l ast.Expr, obj types.Object) bool {
-	id := eRootIdent(l)
-	if id == nil || info.ObjectOf(id) != obj {
-		return false
-	}
-	if _, bare := ast.Unparen(l).(*ast.Ident); bare {
-		return false
-	}
-	if _, isPtr := obj.Type().Underlying().(*types.Pointer); isPtr {
-		return true
-	}
-	through := false
-	e := l
-	for {
-		switch x := e.(type) {
-		case *ast.ParenExpr:
-			e = x.X
-			continue
-		case *ast.StarExpr:
-			through = true
-			e = x.X
-			continue
-		case *ast.IndexExpr:
-			switch info.TypeOf(x.X).Underlying().(type) {
-			case *types.Map, *types.Slice, *types.Pointer:
-				through = true
-			}
-			e = x.X
-			continue
-		case *ast.SelectorExpr:
-			if _, isPtr := info.TypeOf(x.X).Underlying().(*types.Pointer); isPtr {
-				through = true
-			}
-			e = x.X
-			continue
-		}
-		break
-	}
-	return through
+// eRef is an access path: the member of M it starts from (nil inside method summaries, where it
+// starts from the receiver) and the number of dereference steps (index into a map/slice, explicit
+// or implicit pointer dereference) taken from the starting value.
+type eRef struct {
+	field *types.Var
+	steps int
 }
 
-// mutates: the method stores through its receiver (directly or by calling a method that does).
-func (ms *eMutSummary) mutates(fn *types.Func) bool {
-	fn = fn.Origin()
-	switch ms.memo[fn] {
-	case 1:
-		return false
-	case 2:
-		return true
+// eMaxLevel caps the levels the rule distinguishes (walks over linked structures such as trees
+// would otherwise count every hop): a write at level eMaxLevel means "that deep or deeper".
+const eMaxLevel = 4
+
+func eCapLevel(n int) int {
+	if n > eMaxLevel {
+		return eMaxLevel
 	}
-	ms.memo[fn] = 1
-	fd, p := ms.c.Decl(fn)
-	if fd == nil || fd.Body == nil || p == nil {
-		return false
+	return n
+}
+
+// eSteps computes the access path of e; base recognises starting expressions.
+func eSteps(info *types.Info, e ast.Expr, base func(ast.Expr) (eRef, bool)) (eRef, bool) {
+	e = ast.Unparen(e)
+	if r, ok := base(e); ok {
+		return r, true
 	}
-	info := p.TypesInfo
-	r := eRecvObj(info, fd)
-	if r == nil {
-		return false
+	switch x := e.(type) {
+	case *ast.StarExpr:
+		r, ok := eSteps(info, x.X, base)
+		r.steps++
+		return r, ok
+	case *ast.IndexExpr:
+		r, ok := eSteps(info, x.X, base)
+		if t := info.TypeOf(x.X); t != nil {
+			switch t.Underlying().(type) {
+			case *types.Map, *types.Slice, *types.Pointer:
+				r.steps++
+			}
+		}
+		return r, ok
+	case *ast.SliceExpr:
+		return eSteps(info, x.X, base)
+	case *ast.SelectorExpr:
+		if s := info.Selections[x]; s == nil || s.Kind() != types.FieldVal {
+			return eRef{}, false
+		}
+		r, ok := eSteps(info, x.X, base)
+		if t := info.TypeOf(x.X); t != nil {
+			if _, isPtr := t.Underlying().(*types.Pointer); isPtr {
+				r.steps++
+			}
+		}
+		return r, ok
 	}
-	found := false
-	ast.Inspect(fd.Body, func(n ast.Node) bool {
-		if found {
+	return eRef{}, false
+}
+
+// eAliases finds locals that hold a reference read from below a base (`tags := r.f[id]`,
+// `for _, w := range r.f`), to a fixpoint.
+func eAliases(info *types.Info, body ast.Node, base func(ast.Expr) (eRef, bool)) map[types.Object]eRef {
+	aliases := map[types.Object]eRef{}
+	full := func(e ast.Expr) (eRef, bool) {
+		if id, ok := ast.Unparen(e).(*ast.Ident); ok {
+			if r, ok := aliases[info.ObjectOf(id)]; ok {
+				return r, true
+			}
+		}
+		return base(e)
+	}
+	bind := func(l ast.Expr, r eRef) bool {
+		id, ok := l.(*ast.Ident)
+		if !ok || id.Name == "_" {
 			return false
 		}
-		switch x := n.(type) {
-		case *ast.AssignStmt:
-			for _, l := range x.Lhs {
-				if eStoreThroughRef(info, l, r) {
-					found = true
+		obj := info.ObjectOf(id)
+		if obj == nil || !eIsRefType(obj.Type()) {
+			return false
+		}
+		r.steps = eCapLevel(r.steps)
+		if old, ok := aliases[obj]; ok && old.steps >= r.steps {
+			return false
+		}
+		aliases[obj] = r
+		return true
+	}
+	for changed, n := true, 0; changed && n < 8; n++ {
+		changed = false
+		ast.Inspect(body, func(nd ast.Node) bool {
+			switch x := nd.(type) {
+			case *ast.AssignStmt:
+				if len(x.Rhs) == len(x.Lhs) {
+					for i, rh := range x.Rhs {
+						if r, ok := eSteps(info, rh, full); ok && r.steps >= 1 && bind(x.Lhs[i], r) {
+							changed = true
+						}
+					}
+				} else if len(x.Rhs) == 1 && len(x.Lhs) == 2 {
+					if r, ok := eSteps(info, x.Rhs[0], full); ok && r.steps >= 1 && bind(x.Lhs[0], r) {
+						changed = true
+					}
+				}
+			case *ast.RangeStmt:
+				if x.Value != nil {
+					if r, ok := eSteps(info, x.X, full); ok {
+						r.steps++
+						if bind(x.Value, r) {
+							changed = true
+						}
+					}
 				}
 			}
-		case *ast.IncDecStmt:
-			if eStoreThroughRef(info, x.X, r) {
-				found = true
+			return true
+		})
+	}
+	return aliases
+}
+
+// eWrites enumerates the in-place writes inside body: for each, its access path below a base,
+// the storage level written, a description and a position.
+func eWrites(info *types.Info, ms *eMutSummary, body ast.Node, base func(ast.Expr) (eRef, bool), report func(r eRef, level int, how string, pos token.Pos)) {
+	aliases := eAliases(info, body, base)
+	full := func(e ast.Expr) (eRef, bool) {
+		if id, ok := ast.Unparen(e).(*ast.Ident); ok {
+			if r, ok := aliases[info.ObjectOf(id)]; ok {
+				return r, true
 			}
+		}
+		return base(e)
+	}
+	store := func(l ast.Expr, rhs ast.Expr) {
+		if _, bare := ast.Unparen(l).(*ast.Ident); bare {
+			return // assigning a variable is not a write through it
+		}
+		r, ok := eSteps(info, l, full)
+		if !ok {
+			return
+		}
+		if r.steps >= 1 {
+			report(r, r.steps-1, "by the store "+types.ExprString(l)+" = ..", l.Pos())
+			return
+		}
+		if rhs == nil {
+			return
+		}
+		if call, ok := ast.Unparen(rhs).(*ast.CallExpr); ok && isBuiltin(info, call, "append") && len(call.Args) > 0 {
+			if a, ok := eSteps(info, call.Args[0], full); ok && a == r {
+				report(r, 0, "by append", l.Pos())
+			}
+		}
+	}
+	ast.Inspect(body, func(n ast.Node) bool {
+		switch x := n.(type) {
+		case *ast.AssignStmt:
+			for i, l := range x.Lhs {
+				if _, isIdent := ast.Unparen(l).(*ast.Ident); isIdent && x.Tok == token.DEFINE {
+					continue
+				}
+				var rhs ast.Expr
+				if len(x.Rhs) == len(x.Lhs) {
+					rhs = x.Rhs[i]
+				}
+				store(l, rhs)
+			}
+		case *ast.IncDecStmt:
+			store(x.X, nil)
 		case *ast.CallExpr:
 			if isBuiltin(info, x, "delete") && len(x.Args) == 2 {
-				if id := eRootIdent(x.Args[0]); id != nil && info.ObjectOf(id) == r {
-					found = true
+				if r, ok := eSteps(info, x.Args[0], full); ok {
+					report(r, r.steps, "by "+types.ExprString(x), x.Pos())
 				}
 				return true
 			}
@@ -220,29 +386,66 @@ func (ms *eMutSummary) mutates(fn *types.Func) bool {
 			if !ok {
 				return true
 			}
-			if id := eRootIdent(sel.X); id == nil || info.ObjectOf(id) != r {
+			r, ok := eSteps(info, sel.X, full)
+			if !ok {
 				return true
 			}
-			if callee := calleeFunc(info, x); callee != nil && callee.Type().(*types.Signature).Recv() != nil && ms.mutates(callee) {
-				found = true
+			if callee := calleeFunc(info, x); callee != nil && callee.Type().(*types.Signature).Recv() != nil {
+				if lv := ms.level(callee); lv >= 0 {
+					report(r, r.steps+lv, "by a call of the mutating method "+callee.Name(), x.Pos())
+				}
 			}
 		}
 		return true
 	})
-	if found {
-		ms.memo[fn] = 2
-	}
-	return found
 }
 
-// eMutatedFields computes M for a struct type: field -> evidence.
-func eMutatedFields(c *Ctx, ms *eMutSummary, p *packages.Package, named *types.Named, st *types.Struct) map[*types.Var]string {
+// level: the deepest storage level, counted from the receiver's value, that the method writes in
+// place (directly or by calling a method that does); -1 when it writes nothing through it.
+func (ms *eMutSummary) level(fn *types.Func) int {
+	fn = fn.Origin()
+	switch m := ms.memo[fn]; {
+	case m == 1:
+		return -1
+	case m >= 2:
+		return m - 2
+	}
+	ms.memo[fn] = 1
+	fd, p := ms.c.Decl(fn)
+	if fd == nil || fd.Body == nil || p == nil {
+		return -1
+	}
 	info := p.TypesInfo
-	M := map[*types.Var]string{}
-	isField := map[*types.Var]bool{}
+	r := eRecvObj(info, fd)
+	if r == nil {
+		return -1
+	}
+	base := func(e ast.Expr) (eRef, bool) {
+		if id, ok := e.(*ast.Ident); ok && info.ObjectOf(id) == r {
+			return eRef{}, true
+		}
+		return eRef{}, false
+	}
+	max := -1
+	eWrites(info, ms, fd.Body, base, func(_ eRef, level int, _ string, _ token.Pos) {
+		if level = eCapLevel(level); level > max {
+			max = level
+		}
+	})
+	if max >= 0 {
+		ms.memo[fn] = 2 + max
+	}
+	return max
+}
+
+// eMutatedFields computes M for a struct type.
+func eMutatedFields(c *Ctx, ms *eMutSummary, p *packages.Package, named *types.Named, st *types.Struct) map[*types.Var]*eMutInfo {
+	info := p.TypesInfo
+	M := map[*types.Var]*eMutInfo{}
+	member := map[*types.Var]bool{}
 	for i := 0; i < st.NumFields(); i++ {
 		if eIsRefType(st.Field(i).Type()) {
-			isField[st.Field(i)] = true
+			member[st.Field(i)] = true
 		}
 	}
 	for _, fd := range eMethods(c, p, named) {
@@ -250,82 +453,35 @@ func eMutatedFields(c *Ctx, ms *eMutSummary, p *packages.Package, named *types.N
 		if r == nil {
 			continue
 		}
-		note := func(f *types.Var, how string, pos token.Pos) {
-			if f == nil || !isField[f] {
+		base := func(e ast.Expr) (eRef, bool) {
+			sel, ok := e.(*ast.SelectorExpr)
+			if !ok {
+				return eRef{}, false
+			}
+			id, ok := ast.Unparen(sel.X).(*ast.Ident)
+			if !ok || info.ObjectOf(id) != r {
+				return eRef{}, false
+			}
+			if s := info.Selections[sel]; s != nil && s.Kind() == types.FieldVal {
+				if f, ok := s.Obj().(*types.Var); ok && member[f] {
+					return eRef{field: f}, true
+				}
+			}
+			return eRef{}, false
+		}
+		eWrites(info, ms, fd.Body, base, func(ref eRef, level int, how string, pos token.Pos) {
+			if ref.field == nil {
 				return
 			}
-			if _, ok := M[f]; !ok {
-				M[f] = fmt.Sprintf("by %s in %s at %s", how, fd.Name.Name, c.Position(pos))
+			level = eCapLevel(level)
+			ev := fmt.Sprintf("%s in %s at %s", how, fd.Name.Name, c.Position(pos))
+			mi := M[ref.field]
+			if mi == nil {
+				mi = &eMutInfo{first: ev, maxLevel: level, deepest: ev}
+				M[ref.field] = mi
+			} else if level > mi.maxLevel {
+				mi.maxLevel, mi.deepest = level, ev
 			}
-		}
-		// first field of the receiver on the access path of e, and whether e is exactly r.f
-		firstField := func(e ast.Expr) (*types.Var, bool) {
-			exact := true
-			for {
-				if f := eFieldOf(info, e, r); f != nil {
-					if _, isSel := eStrip(e).(*ast.SelectorExpr); isSel {
-						return f, exact
-					}
-				}
-				switch x := eStrip(e).(type) {
-				case *ast.SelectorExpr:
-					e, exact = x.X, false
-				case *ast.IndexExpr:
-					e, exact = x.X, false
-				case *ast.SliceExpr:
-					e, exact = x.X, false
-				default:
-					return nil, false
-				}
-			}
-		}
-		lhs := func(l ast.Expr, rhs ast.Expr) {
-			f, exact := firstField(l)
-			if f == nil {
-				return
-			}
-			if !exact {
-				note(f, "a store through it", l.Pos())
-				return
-			}
-			if call, ok := ast.Unparen(rhs).(*ast.CallExpr); ok && isBuiltin(info, call, "append") && len(call.Args) > 0 {
-				if g, ex := firstField(call.Args[0]); g == f && ex {
-					note(f, "append", l.Pos())
-				}
-			}
-		}
-		ast.Inspect(fd.Body, func(n ast.Node) bool {
-			switch x := n.(type) {
-			case *ast.AssignStmt:
-				for i, l := range x.Lhs {
-					var rhs ast.Expr
-					if len(x.Rhs) == len(x.Lhs) {
-						rhs = x.Rhs[i]
-					}
-					lhs(l, rhs)
-				}
-			case *ast.IncDecStmt:
-				lhs(x.X, nil)
-			case *ast.CallExpr:
-				if isBuiltin(info, x, "delete") && len(x.Args) == 2 {
-					if f, _ := firstField(x.Args[0]); f != nil {
-						note(f, "delete", x.Pos())
-					}
-					return true
-				}
-				sel, ok := ast.Unparen(x.Fun).(*ast.SelectorExpr)
-				if !ok {
-					return true
-				}
-				f, _ := firstField(sel.X)
-				if f == nil {
-					return true
-				}
-				if callee := calleeFunc(info, x); callee != nil && callee.Type().(*types.Signature).Recv() != nil && ms.mutates(callee) {
-					note(f, "a call of the mutating method "+callee.Name(), x.Pos())
-				}
-			}
-			return true
 		})
 	}
 	return M
@@ -341,15 +497,19 @@ const (
 	eAVObj     // a world object
 )
 
+// eAV is an abstract value. For Old and Fresh, fd > 0 means a copy of that storage that is fresh
+// at the levels above fd and shares the levels from fd on with the original.
 type eAV struct {
 	kind  int
 	field *types.Var
 	id    int
 	obj   *eObj
-	why   string
+	fd    int
+	why   string // how the storage came about
+	cwhy  string // for a copy: how it was copied
 }
 
-func (a eAV) same(b eAV) bool {
+func (a eAV) sameRoot(b eAV) bool {
 	if a.kind != b.kind {
 		return false
 	}
@@ -365,15 +525,21 @@ func (a eAV) same(b eAV) bool {
 }
 
 func (a eAV) String() string {
+	s := ""
 	switch a.kind {
 	case eAVOld:
-		return "the storage of " + a.field.Name() + " from before the call"
+		s = "the storage of " + a.field.Name() + " from before the call"
 	case eAVFresh:
-		return "fresh storage (" + a.why + ")"
+		s = "fresh storage (" + a.why + ")"
 	case eAVObj:
 		return "world object " + a.obj.name
+	default:
+		return "an unknown value (" + a.why + ")"
 	}
-	return "an unknown value (" + a.why + ")"
+	if a.fd > 0 {
+		s = fmt.Sprintf("a copy (%s; new storage at levels 0..%d, shared from level %d on) of %s", a.cwhy, a.fd-1, a.fd, s)
+	}
+	return s
 }
 
 type eObj struct {
@@ -381,9 +547,24 @@ type eObj struct {
 	fields map[*types.Var]eAV
 }
 
-type eSnapResult struct {
-	live, snap *eObj
-	undecided  string
+type eCondRec struct {
+	cond    ast.Expr
+	outcome bool
+	roots   map[types.Object]bool
+}
+
+type eSnapState struct {
+	live   *eObj
+	locals map[types.Object]eAV
+	conds  []eCondRec
+	trail  []string
+}
+
+type ePathEnd struct {
+	st        *eSnapState
+	snap      *eObj
+	trail     []string
+	undecided string
 }
 
 type eSnapInterp struct {
@@ -393,10 +574,39 @@ type eSnapInterp struct {
 	named  *types.Named
 	st     *types.Struct
 	recv   types.Object
-	live   *eObj
-	locals map[types.Object]eAV
+	cur    *eSnapState
 	nfresh int
 	fresh  *eFreshSummary
+}
+
+// cloneState copies a state, preserving aliasing between world objects.
+func cloneState(s *eSnapState) *eSnapState {
+	memo := map[*eObj]*eObj{}
+	var cobj func(o *eObj) *eObj
+	cav := func(v eAV) eAV {
+		if v.kind == eAVObj && v.obj != nil {
+			v.obj = cobj(v.obj)
+		}
+		return v
+	}
+	cobj = func(o *eObj) *eObj {
+		if n, ok := memo[o]; ok {
+			return n
+		}
+		n := &eObj{name: o.name, fields: map[*types.Var]eAV{}}
+		memo[o] = n
+		for k, v := range o.fields {
+			n.fields[k] = cav(v)
+		}
+		return n
+	}
+	n := &eSnapState{live: cobj(s.live), locals: map[types.Object]eAV{}}
+	for k, v := range s.locals {
+		n.locals[k] = cav(v)
+	}
+	n.conds = append([]eCondRec(nil), s.conds...)
+	n.trail = append([]string(nil), s.trail...)
+	return n
 }
 
 func (in *eSnapInterp) newFresh(why string) eAV {
@@ -404,7 +614,7 @@ func (in *eSnapInterp) newFresh(why string) eAV {
 	return eAV{kind: eAVFresh, id: in.nfresh, why: why}
 }
 
-func (in *eSnapInterp) clone(o *eObj, name string) *eObj {
+func (in *eSnapInterp) cloneObj(o *eObj, name string) *eObj {
 	n := &eObj{name: name, fields: map[*types.Var]eAV{}}
 	for k, v := range o.fields {
 		n.fields[k] = v
@@ -425,6 +635,68 @@ func (in *eSnapInterp) fieldByName(name string) *types.Var {
 	return nil
 }
 
+// shallow returns a copy of v that is fresh above level 1+extra.
+func (in *eSnapInterp) shallow(v eAV, extra int, why string) eAV {
+	switch v.kind {
+	case eAVOld, eAVFresh:
+		if v.kind == eAVFresh && v.fd == 0 && v.why == "nil" {
+			return v
+		}
+		n := v
+		if n.fd < 1+extra {
+			n.fd = 1 + extra
+		}
+		n.cwhy = why
+		return n
+	}
+	return eAV{kind: eAVUnknown, why: "copy of " + v.String()}
+}
+
+// isStdClone: maps.Clone / slices.Clone (shallow by definition).
+func eIsStdClone(f *types.Func) bool {
+	if f == nil || f.Pkg() == nil || f.Name() != "Clone" {
+		return false
+	}
+	return f.Pkg().Path() == "maps" || f.Pkg().Path() == "slices"
+}
+
+// cloneDepth: e is `of` itself (0), or a shallow copy of it (1); -1 otherwise.
+func (in *eSnapInterp) copyOf(e ast.Expr, of types.Object) int {
+	e = ast.Unparen(e)
+	if id, ok := e.(*ast.Ident); ok && in.info.ObjectOf(id) == of {
+		return 0
+	}
+	if call, ok := e.(*ast.CallExpr); ok {
+		if f := calleeFunc(in.info, call); eIsStdClone(f) && len(call.Args) == 1 {
+			if in.copyOf(call.Args[0], of) == 0 {
+				return 1
+			}
+		}
+		if isBuiltin(in.info, call, "append") && len(call.Args) == 2 && call.Ellipsis.IsValid() && in.emptyBase(call.Args[0]) {
+			if in.copyOf(call.Args[1], of) == 0 {
+				return 1
+			}
+		}
+	}
+	return -1
+}
+
+// emptyBase: T(nil), T{}, nil or a zero-length make: the first argument of a copying append.
+func (in *eSnapInterp) emptyBase(e ast.Expr) bool {
+	switch x := ast.Unparen(e).(type) {
+	case *ast.Ident:
+		_, isNil := in.info.ObjectOf(x).(*types.Nil)
+		return isNil
+	case *ast.CompositeLit:
+		return len(x.Elts) == 0
+	case *ast.CallExpr:
+		if tv, ok := in.info.Types[x.Fun]; ok && tv.IsType() && len(x.Args) == 1 {
+			return in.emptyBase(x.Args[0])
+		}
+	}
+	return false
+}
+
 func (in *eSnapInterp) eval(e ast.Expr) eAV {
 	switch x := e.(type) {
 	case *ast.ParenExpr:
@@ -432,25 +704,25 @@ func (in *eSnapInterp) eval(e ast.Expr) eAV {
 	case *ast.Ident:
 		obj := in.info.ObjectOf(x)
 		if obj == in.recv {
-			return eAV{kind: eAVObj, obj: in.live}
+			return eAV{kind: eAVObj, obj: in.cur.live}
 		}
 		if _, isNil := obj.(*types.Nil); isNil {
 			return in.newFresh("nil")
 		}
-		if v, ok := in.locals[obj]; ok {
+		if v, ok := in.cur.locals[obj]; ok {
 			return v
 		}
 		return eAV{kind: eAVUnknown, why: "variable " + x.Name}
 	case *ast.UnaryExpr:
 		if x.Op == token.AND {
 			v := in.eval(x.X)
-			if v.kind == eAVObj || v.kind == eAVFresh {
+			if v.kind == eAVObj || (v.kind == eAVFresh && v.fd == 0) {
 				return v
 			}
 			if id, ok := ast.Unparen(x.X).(*ast.Ident); ok {
 				// the address of a local variable of the function is a new allocation
-				if lv, ok := in.info.ObjectOf(id).(*types.Var); ok && lv != in.recv && !lv.IsField() && lv.Parent() != nil && lv.Pkg() != nil && lv.Parent() != lv.Pkg().Scope() {
-					if _, seen := in.locals[lv]; seen {
+				if lv, ok := in.info.ObjectOf(id).(*types.Var); ok && types.Object(lv) != in.recv && !lv.IsField() && lv.Parent() != nil && lv.Pkg() != nil && lv.Parent() != lv.Pkg().Scope() {
+					if _, seen := in.cur.locals[lv]; seen {
 						return in.newFresh("address of the local variable " + id.Name)
 					}
 				}
@@ -460,7 +732,7 @@ func (in *eSnapInterp) eval(e ast.Expr) eAV {
 	case *ast.StarExpr:
 		v := in.eval(x.X)
 		if v.kind == eAVObj {
-			return eAV{kind: eAVObj, obj: in.clone(v.obj, "copy of "+v.obj.name)}
+			return eAV{kind: eAVObj, obj: in.cloneObj(v.obj, "copy of "+v.obj.name)}
 		}
 		return eAV{kind: eAVUnknown, why: "dereference " + types.ExprString(x)}
 	case *ast.SelectorExpr:
@@ -499,21 +771,43 @@ func (in *eSnapInterp) eval(e ast.Expr) eAV {
 		if isBuiltin(in.info, x, "make") || isBuiltin(in.info, x, "new") {
 			return in.newFresh(nodeText(in.c.Fset, x) + " at " + in.c.Position(x.Pos()))
 		}
+		if isBuiltin(in.info, x, "append") && len(x.Args) == 2 && x.Ellipsis.IsValid() && in.emptyBase(x.Args[0]) {
+			return in.shallow(in.eval(x.Args[1]), 0, "append to an empty slice at "+in.c.Position(x.Pos()))
+		}
 		if tv, ok := in.info.Types[x.Fun]; ok && tv.IsType() && len(x.Args) == 1 {
 			return in.eval(x.Args[0]) // conversion
 		}
 		if f := calleeFunc(in.info, x); f != nil {
+			if eIsStdClone(f) && len(x.Args) == 1 {
+				return in.shallow(in.eval(x.Args[0]), 0, f.Pkg().Name()+".Clone at "+in.c.Position(x.Pos()))
+			}
 			if in.fresh.isCtor(f) {
 				return in.newFresh("constructor " + f.Name() + " at " + in.c.Position(x.Pos()))
 			}
-			return eAV{kind: eAVUnknown, why: "result of " + f.Name() + ", which is not a constructor of fresh storage"}
+			return eAV{kind: eAVUnknown, why: "result of " + f.Name() + ", which is neither a constructor of fresh storage nor a known copy"}
 		}
 		return eAV{kind: eAVUnknown, why: "dynamic call " + nodeText(in.c.Fset, x)}
 	}
 	return eAV{kind: eAVUnknown, why: nodeText(in.c.Fset, e)}
 }
 
+// forget drops recorded branch decisions whose condition mentions obj.
+func (in *eSnapInterp) forget(obj types.Object) {
+	var keep []eCondRec
+	for _, r := range in.cur.conds {
+		if !r.roots[obj] {
+			keep = append(keep, r)
+		}
+	}
+	in.cur.conds = keep
+}
+
 func (in *eSnapInterp) assign(l, r ast.Expr) string {
+	if id := eRootIdent(l); id != nil {
+		if obj := in.info.ObjectOf(id); obj != nil {
+			in.forget(obj)
+		}
+	}
 	switch x := ast.Unparen(l).(type) {
 	case *ast.Ident:
 		if x.Name == "_" {
@@ -525,10 +819,9 @@ func (in *eSnapInterp) assign(l, r ast.Expr) string {
 		}
 		v := in.eval(r)
 		if _, isStruct := obj.Type().Underlying().(*types.Struct); isStruct && v.kind == eAVObj && in.isWorldStruct(obj.Type()) {
-			v = eAV{kind: eAVObj, obj: in.clone(v.obj, x.Name)}
-			v.obj.name = x.Name
+			v = eAV{kind: eAVObj, obj: in.cloneObj(v.obj, x.Name)}
 		}
-		in.locals[obj] = v
+		in.cur.locals[obj] = v
 	case *ast.SelectorExpr:
 		if s := in.info.Selections[x]; s != nil && s.Kind() == types.FieldVal {
 			base := in.eval(x.X)
@@ -548,131 +841,276 @@ func (in *eSnapInterp) assign(l, r ast.Expr) string {
 	return ""
 }
 
-func eInterpretSnapshot(c *Ctx, p *packages.Package, fd *ast.FuncDecl, named *types.Named, st *types.Struct) *eSnapResult {
-	info := p.TypesInfo
-	in := &eSnapInterp{c: c, p: p, info: info, named: named, st: st, recv: eRecvObj(info, fd), locals: map[types.Object]eAV{},
-		fresh: &eFreshSummary{c: c, memo: map[*types.Func]int{}}}
-	in.live = &eObj{name: "the live world", fields: map[*types.Var]eAV{}}
-	for i := 0; i < st.NumFields(); i++ {
-		in.live.fields[st.Field(i)] = eAV{kind: eAVOld, field: st.Field(i)}
-	}
-	res := &eSnapResult{live: in.live}
-	if in.recv == nil {
-		res.undecided = "Snapshot has an unnamed receiver"
-		return res
-	}
-	for _, s := range fd.Body.List {
-		switch x := s.(type) {
+// harmless: the statement cannot change which storage a world object's field or a tracked local
+// holds: no return/defer/go/closure, no assignment to a variable or to a direct field of a world
+// object, no method call on a world object.
+func (in *eSnapInterp) harmless(s ast.Node) bool {
+	ok := true
+	ast.Inspect(s, func(n ast.Node) bool {
+		switch y := n.(type) {
+		case *ast.ReturnStmt, *ast.GoStmt, *ast.DeferStmt, *ast.FuncLit, *ast.BranchStmt:
+			if b, isBranch := y.(*ast.BranchStmt); !isBranch || b.Tok == token.GOTO {
+				ok = false
+			}
 		case *ast.AssignStmt:
-			if x.Tok != token.DEFINE && x.Tok != token.ASSIGN || len(x.Lhs) != len(x.Rhs) {
-				res.undecided = "statement not interpreted at " + c.Position(s.Pos())
-				return res
-			}
-			// evaluate all right-hand sides first (tuple assignment semantics are not needed: one pair at a time is exact for 1:1)
-			for i := range x.Lhs {
-				if why := in.assign(x.Lhs[i], x.Rhs[i]); why != "" {
-					res.undecided = why + " at " + c.Position(s.Pos())
-					return res
-				}
-			}
-		case *ast.DeclStmt:
-			gd, ok := x.Decl.(*ast.GenDecl)
-			if !ok || gd.Tok != token.VAR {
-				continue
-			}
-			for _, sp := range gd.Specs {
-				vs := sp.(*ast.ValueSpec)
-				for i, nm := range vs.Names {
-					if i < len(vs.Values) && len(vs.Values) == len(vs.Names) {
-						if why := in.assign(nm, vs.Values[i]); why != "" {
-							res.undecided = why + " at " + c.Position(s.Pos())
-							return res
-						}
-					} else if len(vs.Values) == 0 {
-						obj := info.Defs[nm]
-						if in.isWorldStruct(obj.Type()) {
-							if _, isStruct := obj.Type().Underlying().(*types.Struct); isStruct {
-								o := &eObj{name: nm.Name, fields: map[*types.Var]eAV{}}
-								for k := 0; k < st.NumFields(); k++ {
-									o.fields[st.Field(k)] = in.newFresh("zero value")
-								}
-								in.locals[obj] = eAV{kind: eAVObj, obj: o}
-								continue
-							}
-						}
-						in.locals[obj] = in.newFresh("zero value")
+			for _, l := range y.Lhs {
+				switch z := ast.Unparen(l).(type) {
+				case *ast.Ident:
+					if y.Tok != token.DEFINE {
+						ok = false
 					}
-				}
-			}
-		case *ast.ReturnStmt:
-			if len(x.Results) != 1 {
-				res.undecided = "return without a single result at " + c.Position(s.Pos())
-				return res
-			}
-			v := in.eval(x.Results[0])
-			if v.kind != eAVObj {
-				res.undecided = fmt.Sprintf("the returned value %s is not a world object of type %s the rule can follow (%s)", nodeText(c.Fset, x.Results[0]), named.Obj().Name(), v.String())
-				return res
-			}
-			res.snap = v.obj
-			return res
-		case *ast.ExprStmt:
-			// a call: if it is a method call on a world object it may reassign fields
-			if call, ok := x.X.(*ast.CallExpr); ok {
-				if sel, ok := ast.Unparen(call.Fun).(*ast.SelectorExpr); ok {
-					if v := in.eval(sel.X); v.kind == eAVObj {
-						res.undecided = fmt.Sprintf("the call %s may reassign fields of a world object (not interpreted)", nodeText(c.Fset, call))
-						return res
+				case *ast.SelectorExpr:
+					if v := in.eval(z.X); v.kind == eAVObj {
+						ok = false
 					}
-				}
-				for _, a := range call.Args {
-					if v := in.eval(a); v.kind == eAVObj {
-						res.undecided = fmt.Sprintf("a world object is passed to %s (not interpreted)", nodeText(c.Fset, call))
-						return res
-					}
-				}
-			}
-		case *ast.EmptyStmt:
-		default:
-			// control flow is tolerated only when it cannot change which storage a world object's
-			// field holds: no return and no assignment to a variable or to a direct field inside it
-			harmless := true
-			ast.Inspect(s, func(n ast.Node) bool {
-				switch y := n.(type) {
-				case *ast.ReturnStmt, *ast.GoStmt, *ast.DeferStmt, *ast.FuncLit:
-					harmless = false
-				case *ast.AssignStmt:
-					for _, l := range y.Lhs {
-						switch z := ast.Unparen(l).(type) {
-						case *ast.Ident:
-							if y.Tok != token.DEFINE {
-								harmless = false
-							}
-						case *ast.SelectorExpr:
-							if v := in.eval(z.X); v.kind == eAVObj {
-								harmless = false
-							}
-						case *ast.StarExpr:
-							harmless = false
-						}
-					}
-				case *ast.CallExpr:
-					if sel, ok := ast.Unparen(y.Fun).(*ast.SelectorExpr); ok {
-						if v := in.eval(sel.X); v.kind == eAVObj {
-							harmless = false
+				case *ast.StarExpr:
+					ok = false
+				case *ast.IndexExpr:
+					if id := eRootIdent(z); id != nil {
+						if _, tracked := in.cur.locals[in.info.ObjectOf(id)]; tracked {
+							ok = false
 						}
 					}
 				}
-				return harmless
-			})
-			if !harmless {
-				res.undecided = fmt.Sprintf("Snapshot contains control flow the rule does not interpret (%T at %s)", s, c.Position(s.Pos()))
-				return res
+			}
+		case *ast.CallExpr:
+			if sel, isSel := ast.Unparen(y.Fun).(*ast.SelectorExpr); isSel {
+				if v := in.eval(sel.X); v.kind == eAVObj {
+					ok = false
+				}
+			}
+			if isBuiltin(in.info, y, "copy") {
+				ok = false
 			}
 		}
+		return ok
+	})
+	return ok
+}
+
+// elementwiseCopy recognises `for k, v := range SRC { DST[k] = <v or a shallow copy of v> }` with
+// DST a local holding storage allocated in Snapshot, and applies it.
+func (in *eSnapInterp) elementwiseCopy(rs *ast.RangeStmt) bool {
+	if rs.Key == nil || rs.Value == nil || len(rs.Body.List) != 1 {
+		return false
 	}
-	res.undecided = "Snapshot ends without a return"
-	return res
+	kid, ok1 := rs.Key.(*ast.Ident)
+	vid, ok2 := rs.Value.(*ast.Ident)
+	as, ok3 := rs.Body.List[0].(*ast.AssignStmt)
+	if !ok1 || !ok2 || !ok3 || as.Tok != token.ASSIGN || len(as.Lhs) != 1 || len(as.Rhs) != 1 {
+		return false
+	}
+	ix, ok := ast.Unparen(as.Lhs[0]).(*ast.IndexExpr)
+	if !ok {
+		return false
+	}
+	did, ok := ast.Unparen(ix.X).(*ast.Ident)
+	iid, ok2 := ast.Unparen(ix.Index).(*ast.Ident)
+	if !ok || !ok2 || in.info.ObjectOf(iid) != in.info.ObjectOf(kid) {
+		return false
+	}
+	dobj := in.info.ObjectOf(did)
+	dst, tracked := in.cur.locals[dobj]
+	if !tracked || dst.kind != eAVFresh || dst.fd != 0 {
+		return false
+	}
+	depth := in.copyOf(as.Rhs[0], in.info.ObjectOf(vid))
+	if depth < 0 {
+		return false
+	}
+	src := in.eval(rs.X)
+	in.cur.locals[dobj] = in.shallow(src, depth, fmt.Sprintf("element-wise copy into %s at %s", did.Name, in.c.Position(rs.Pos())))
+	return true
+}
+
+func (in *eSnapInterp) condRoots(e ast.Expr) map[types.Object]bool {
+	m := map[types.Object]bool{}
+	ast.Inspect(e, func(n ast.Node) bool {
+		if id, ok := n.(*ast.Ident); ok {
+			if obj := in.info.ObjectOf(id); obj != nil {
+				m[obj] = true
+			}
+		}
+		return true
+	})
+	return m
+}
+
+func (in *eSnapInterp) fail(st *eSnapState, why string) ([]*eSnapState, []*ePathEnd) {
+	return nil, []*ePathEnd{{st: st, trail: st.trail, undecided: why}}
+}
+
+func (in *eSnapInterp) execList(list []ast.Stmt, st *eSnapState) ([]*eSnapState, []*ePathEnd) {
+	states := []*eSnapState{st}
+	var done []*ePathEnd
+	for _, s := range list {
+		var next []*eSnapState
+		for _, cur := range states {
+			c, d := in.execStmt(s, cur)
+			next = append(next, c...)
+			done = append(done, d...)
+		}
+		states = next
+		if len(states)+len(done) > 64 {
+			return in.fail(st, "Snapshot has more than 64 paths")
+		}
+	}
+	return states, done
+}
+
+func (in *eSnapInterp) execStmt(s ast.Stmt, st *eSnapState) ([]*eSnapState, []*ePathEnd) {
+	in.cur = st
+	c := in.c
+	switch x := s.(type) {
+	case *ast.AssignStmt:
+		if x.Tok != token.DEFINE && x.Tok != token.ASSIGN || len(x.Lhs) != len(x.Rhs) {
+			if in.harmless(x) {
+				return []*eSnapState{st}, nil
+			}
+			return in.fail(st, "statement not interpreted at "+c.Position(s.Pos()))
+		}
+		for i := range x.Lhs {
+			if why := in.assign(x.Lhs[i], x.Rhs[i]); why != "" {
+				return in.fail(st, why+" at "+c.Position(s.Pos()))
+			}
+		}
+	case *ast.DeclStmt:
+		gd, ok := x.Decl.(*ast.GenDecl)
+		if !ok || gd.Tok != token.VAR {
+			break
+		}
+		for _, sp := range gd.Specs {
+			vs := sp.(*ast.ValueSpec)
+			for i, nm := range vs.Names {
+				if i < len(vs.Values) && len(vs.Values) == len(vs.Names) {
+					if why := in.assign(nm, vs.Values[i]); why != "" {
+						return in.fail(st, why+" at "+c.Position(s.Pos()))
+					}
+				} else if len(vs.Values) == 0 {
+					obj := in.info.Defs[nm]
+					if in.isWorldStruct(obj.Type()) {
+						if _, isStruct := obj.Type().Underlying().(*types.Struct); isStruct {
+							o := &eObj{name: nm.Name, fields: map[*types.Var]eAV{}}
+							for k := 0; k < in.st.NumFields(); k++ {
+								o.fields[in.st.Field(k)] = in.newFresh("zero value")
+							}
+							st.locals[obj] = eAV{kind: eAVObj, obj: o}
+							continue
+						}
+					}
+					st.locals[obj] = in.newFresh("zero value")
+				}
+			}
+		}
+	case *ast.ReturnStmt:
+		if len(x.Results) != 1 {
+			return in.fail(st, "return without a single result at "+c.Position(s.Pos()))
+		}
+		v := in.eval(x.Results[0])
+		if v.kind != eAVObj {
+			return in.fail(st, fmt.Sprintf("the returned value %s is not a world object of type %s the rule can follow (%s)", nodeText(c.Fset, x.Results[0]), in.named.Obj().Name(), v.String()))
+		}
+		return nil, []*ePathEnd{{st: st, snap: v.obj, trail: st.trail}}
+	case *ast.ExprStmt:
+		call, ok := x.X.(*ast.CallExpr)
+		if !ok {
+			break
+		}
+		// copy(t, s): t becomes a shallow copy of s
+		if isBuiltin(in.info, call, "copy") && len(call.Args) == 2 {
+			if id, ok := ast.Unparen(call.Args[0]).(*ast.Ident); ok {
+				if dst, tracked := st.locals[in.info.ObjectOf(id)]; tracked {
+					if dst.kind == eAVFresh && dst.fd == 0 {
+						st.locals[in.info.ObjectOf(id)] = in.shallow(in.eval(call.Args[1]), 0, "make and copy at "+c.Position(call.Pos()))
+					} else {
+						st.locals[in.info.ObjectOf(id)] = eAV{kind: eAVUnknown, why: "copy into " + id.Name + ", which is not freshly made"}
+					}
+				}
+			}
+			break
+		}
+		if sel, ok := ast.Unparen(call.Fun).(*ast.SelectorExpr); ok {
+			if v := in.eval(sel.X); v.kind == eAVObj {
+				return in.fail(st, fmt.Sprintf("the call %s may reassign fields of a world object (not interpreted)", nodeText(c.Fset, call)))
+			}
+		}
+		for _, a := range call.Args {
+			if v := in.eval(a); v.kind == eAVObj {
+				return in.fail(st, fmt.Sprintf("a world object is passed to %s (not interpreted)", nodeText(c.Fset, call)))
+			}
+		}
+	case *ast.EmptyStmt:
+	case *ast.BlockStmt:
+		return in.execList(x.List, st)
+	case *ast.IfStmt:
+		if x.Init != nil {
+			cont, done := in.execStmt(x.Init, st)
+			if len(cont) != 1 {
+				return cont, done
+			}
+			in.cur = st
+		}
+		cond := nodeText(c.Fset, x.Cond)
+		at := c.Position(x.Pos())
+		branch := func(b *eSnapState, outcome bool) ([]*eSnapState, []*ePathEnd) {
+			if outcome {
+				b.trail = append(b.trail, fmt.Sprintf("the branch where `%s` holds (if at %s)", cond, at))
+				return in.execList(x.Body.List, b)
+			}
+			b.trail = append(b.trail, fmt.Sprintf("the branch where `%s` does not hold (%s)", cond, at))
+			if x.Else == nil {
+				return []*eSnapState{b}, nil
+			}
+			return in.execStmt(x.Else, b)
+		}
+		for _, r := range st.conds {
+			if sameExpr(in.info, r.cond, x.Cond) {
+				return branch(st, r.outcome) // same condition as before, operands unchanged
+			}
+		}
+		roots := in.condRoots(x.Cond)
+		thenSt := cloneState(st)
+		thenSt.conds = append(thenSt.conds, eCondRec{x.Cond, true, roots})
+		st.conds = append(st.conds, eCondRec{x.Cond, false, roots})
+		c1, d1 := branch(thenSt, true)
+		c2, d2 := branch(st, false)
+		return append(c1, c2...), append(d1, d2...)
+	case *ast.RangeStmt:
+		if in.elementwiseCopy(x) {
+			break
+		}
+		if !in.harmless(x) {
+			return in.fail(st, fmt.Sprintf("Snapshot contains a loop the rule does not interpret (at %s): only an element-wise copy into a freshly made local, or a loop that assigns no variable and no field of a world, is accepted", c.Position(s.Pos())))
+		}
+	default:
+		if !in.harmless(s) {
+			return in.fail(st, fmt.Sprintf("Snapshot contains control flow the rule does not interpret (%T at %s)", s, c.Position(s.Pos())))
+		}
+	}
+	return []*eSnapState{st}, nil
+}
+
+// eInterpretSnapshot returns the ends of all paths through Snapshot, or a reason why the method
+// as a whole is undecided.
+func eInterpretSnapshot(c *Ctx, p *packages.Package, fd *ast.FuncDecl, named *types.Named, st *types.Struct) ([]*ePathEnd, string) {
+	info := p.TypesInfo
+	in := &eSnapInterp{c: c, p: p, info: info, named: named, st: st, recv: eRecvObj(info, fd),
+		fresh: &eFreshSummary{c: c, memo: map[*types.Func]int{}}}
+	if in.recv == nil {
+		return nil, "Snapshot has an unnamed receiver"
+	}
+	start := &eSnapState{live: &eObj{name: "the live world", fields: map[*types.Var]eAV{}}, locals: map[types.Object]eAV{}}
+	for i := 0; i < st.NumFields(); i++ {
+		start.live.fields[st.Field(i)] = eAV{kind: eAVOld, field: st.Field(i)}
+	}
+	cont, done := in.execList(fd.Body.List, start)
+	for _, s := range cont {
+		done = append(done, &ePathEnd{st: s, trail: s.trail, undecided: "Snapshot can end without a return"})
+	}
+	if len(done) == 0 {
+		return nil, "Snapshot has no path to a return"
+	}
+	return done, ""
 }
 
 // ---------------------------------------------------------------------------------------------
